@@ -14,6 +14,15 @@ FW_RULE = ("cases = random validated machine sets x call histories drawn from on
            "A case is non-trivial when %s; distinct = distinct wire encodings.")
 
 PROPS = {
+    "C01": {
+        "sub": "fw",
+        "n": {"quick": 3000, "thorough": 200000},
+        "coq_sample": {"quick": 20, "thorough": 200},
+        "rule": FW_RULE % "at least one action was returned (machines mix all action kinds, heavy-tailed/huge distributions, saturating counters, limits, both pseudo-states; batches of 0..8 events with foreign ids; clocks that stand still, jump and run backwards)",
+        "extra": [{"sub": "c01std", "dir": "C01-std", "n": {"quick": 300, "thorough": 30000}}],
+        "assumptions": ["virtual clock (u64 microseconds, saturating Duration add); std::time clock covered by the separate std-clock probe (known finding F6)",
+                        "packet counters below 2^64"],
+    },
     "C05": {
         "sub": "fw",
         "n": {"quick": 3000, "thorough": 200000},
